@@ -24,7 +24,8 @@ RULE = ("sq: the cookie manager as a black box (opaque cookies, nothing forged, 
         "foreign and unknown sessions, counter positions {1,0xfffe,0xffff,random}, occupied runs across the wrap, "
         "full and nearly full id space, concurrent PADRs (C) and PADRs forced to overlap between allocateSessionID and "
         "addToIndexes (P, gate in the AccessResolver) incl. the last-free-id race; restored sessions with usernames, "
-        "CHAP Responses naming a session like another one, removal by PADT / dead peer. Non-trivial: sq with an accept and a reject; tags accepted; tb with a session "
+        "CHAP Responses naming a session like another one, removal by PADT / dead peer / AAA reject (A) / dataplane add "
+        "failure (F, also late: for an object already torn down whose id has been re-used). Non-trivial: sq with an accept and a reject; tags accepted; tb with a session "
         "created and at least one PADT/session packet reaching or refused. Distinct: by case text.")
 TRUSTED = ["HMAC-SHA256 is an uninterpreted function argument H of the model; the AC-Cookie is an opaque token: the "
            "correspondence never forges or decodes cookies, it presents (mutations of) the implementation's own cookies "
@@ -551,6 +552,11 @@ def classify(case, impl, model):
     for i, (x, y) in enumerate(zip(io, mo)):
         if x != y:
             txt = "op #%d %s: implementation %s, model (repaired) %s" % (i, ops[i] if i < len(ops) else "?", x, y)
+            kind_ = ops[i].split("/")[0] if i < len(ops) else "?"
+            if kind_ == "F" and y == "none" and x.startswith("term:"):
+                # a second teardown of an object that is already torn down: it cannot touch sidIndex / sessions
+                # (C04_stale_teardown_noop); the repeated Released event is not this property's subject
+                return "G", txt + " (late dataplane failure handled again: outside this property, correspondence only)"
             if y == "INADMISSIBLE":
                 # which id a PADR gets is free; the model rejected the implementation's answer.  An id that is 0,
                 # in use or handed out twice violates the property; creating NOTHING although an id is free does not
@@ -624,6 +630,12 @@ def distribution(cases, impl):
                 if kk == "R":
                     d["padr_created" if x.startswith("pads:") else "padr_refused"] += 1
                     d["sid0"] += x.startswith("pads:0:")
+                elif kk in ("A", "F"):
+                    key = {"A": "aaa_reject", "F": "vpp_fail"}[kk] + ("_term" if x.startswith("term:") else "_noop")
+                    d[key] = d.get(key, 0) + 1
+                elif kk == "H":
+                    d["ha_sync_" + ("installed" if x.startswith("synced:") else "refused")] = d.get(
+                        "ha_sync_" + ("installed" if x.startswith("synced:") else "refused"), 0) + 1
                 elif kk == "T":
                     d["padt_term" if x.startswith("term:") else "padt_none"] += 1
                 elif kk == "S":
